@@ -53,6 +53,8 @@ class ExplodeColorLayerGlyphsFilter(BaseFilter):
         layerGlyph.unicodes = []
         glyphSet[layerGlyphName] = layerGlyph
         self.context.colorLayerGlyphNames.add(layerGlyphName)
+        # report the glyph we added among the modified ones
+        self.context.modified.add(layerGlyphName)
         return layerGlyphName
 
     def filter(self, glyph):
